@@ -86,6 +86,8 @@ std::string asg_f(const Words& w);
 std::string asg_d(const Words& w);
 std::string red_f(const Words& w);
 std::string red_d(const Words& w);
+std::string nod_f(const Words& w);
+std::string nod_d(const Words& w);
 
 } // namespace simd
 #endif
